@@ -8,6 +8,11 @@ textual view is compared with the quantity its row / column label names, recompu
 reference ``vf.ref_stats`` (exact rational linear algebra).  The classical, robust and bootstrap
 families are recomputed separately, so that a value of one family in another family's column is caught.
 
+Views of one outcome: the fields _calculate_stats stores on ``data``; get_estimated_parameters (both switches);
+get_correlation_results (every subset of the names + one with an unknown name); get_general_statistics;
+print_general_statistics; get_var_covar / get_robust_var_covar / get_bootstrap_var_covar; short_summary; __str__;
+get_html (both switches); get_f12 (both switches).
+
 Parts:  'o' outcomes x all views;  'c' compile_estimation_results over all ordered tuples of 1..3 models
 from a pool x all 2^5 flag combinations;  'l' likelihood_ratio_test over a grid;  'r' real estimations
 (real BIOGEME objects, bootstrap resamples owned through numpy.random.randint).
@@ -42,7 +47,11 @@ ASSUMPTIONS = [
     'p-values are compared with an absolute tolerance of 1e-12 (+ propagated 1e-10 relative error of t): for |t| > 7 all '
     'p-values are indistinguishable from 0 at that tolerance',
     'text views (print_general_statistics, short_summary, __str__, get_html, get_f12) are compared after formatting the '
-    'reference with the same format specification; eigen-structure figures and timing fields are not checked',
+    'reference with the same format specification (figures below 1e-6 of the scale, printed with 3 digits, are rounding '
+    'noise and skipped); eigen-structure figures, timing fields, get_latex and the pickle-file entry of '
+    'compile_estimation_results are not checked',
+    'results without a Hessian or without an initial log likelihood (quick_estimate) are outside the quantifier; the '
+    'initial log likelihood "absent" / "zero" alphabets only check that the remaining cells stay correct',
     'the reference normal CDF is math.erfc, the chi-square CDF a series / continued fraction written for this check',
 ]
 ANCHOR_FILES = ['src/biogeme/results.py', 'src/biogeme/tools/likelihood_ratio.py']
@@ -1347,7 +1356,8 @@ def view_f12(r, ck, robust):
         ck.num(view, 'sample size', 'line K+5', float(toks[0]), float(m['n']), named, 'sample_size')
         ck.num(view, 'null likelihood', 'line K+5', float(toks[2]), 0.0 if m['null'] is None else m['null'], named, 'null')
         ck.num(view, 'final likelihood', 'line K+5', float(toks[3]), m['loglike'], named, 'final')
-    corr = ' '.join(lines[end + 3:]).split()
+    # fixed-width fields of 7 characters, 10 per line (a field holding -100000 touches its neighbour)
+    corr = [ln[c:c + 7] for ln in lines[end + 3:] for c in range(0, len(ln), 7)]
     pairs = [(i, j) for i in range(k) for j in range(i)]
     ck.structure(view, 'number of correlations', len(pairs), len(corr))
     for (i, j), tok in zip(pairs, corr):
